@@ -19,6 +19,12 @@ whose `Raw()` re-encodes the key) the address is a per-blob oracle answer (`Orac
 `types.KeyAddress`, computed by the harness).
 
 What remains hypothesis, and how it is expressed:
+* **The oracle is quantified independently of the item.**  `SignedByProposer o R sh` says `o.hdrSigOk = true` for an
+  `o` that Lean does not relate to `sh`: that this boolean is the result of verifying `sh`'s signature over `sh`'s
+  payload under the key `sh` carries is established by `Oracles()` of the harness (repository decoder + real
+  `PubKey.Verify` over the default payload), i.e. it is part of the trusted base.  The section "which verification
+  returned `true`" states that computation in Lean (`Crypto.oracleFor`) and proves the conclusions with the
+  verification named (`accepted_header_verified`, `C03_header_full_verified`).
 * **Signature unforgeability (ed25519)** is not used in any proof.  The conclusions say "the item carries the
   proposer's key `R` and the REAL verification of its signature under the carried key succeeded"
   (`o.hdrSigOk` / `o.dataSigOk` = the oracle, i.e. `PubKey.Verify` run by the harness).  That only the holder of
@@ -175,6 +181,43 @@ theorem C03_p2p_full (R : Bytes) (hnc : AddrNoCollision R) (o : Oracle) (sh : Si
     (h : p2pAdmit o (keyAddress R) sh = true) : SignedByProposer o R sh :=
   (p2p_by_proposer_or_collision o R sh h).resolve_right (no_collision_of_hyps hnc hother)
 
+/-! ### which verification returned `true`
+
+In the statements above the oracle `o` is quantified independently of the item: that `o.hdrSigOk` is the result of
+verifying THIS header's signature is established outside Lean, by `Oracles()` of the harness (it decodes the blob
+with the repository's decoder and calls the real `PubKey.Verify` over the default signature payload
+`Header.MarshalBinary()` / over `Data.MarshalBinary()`).  `Crypto.oracleFor` states that computation in Lean —
+the third-party crypto as FUNCTIONS (`keyOk`, `verify key payload signature`, `keyAddr`) applied to what the blob
+decodes to — and for oracles of that form the conclusions name the verification: -/
+
+/-- an accepted header's signature was verified under the key it carries over the canonical encoding of the
+accepted header -/
+theorem accepted_header_verified (c : Crypto) (p bs : Bytes) (sh : SignedHeader)
+    (h : classify (c.oracleFor bs) p bs = .hdrAccepted sh) :
+    c.verify sh.signer.pubKey sh.header.encode sh.signature = true := by
+  obtain ⟨hs, hv, _⟩ := (classify_hdrAccepted_iff _ p bs sh).1 h
+  have hd := SignedHeader.decode_true_of_decode _ bs sh ((headerStage_ok_iff _ bs sh).1 hs)
+  have := ((validateBasicWire_iff _ sh).1 hv).2.2.2.2.2
+  simpa [Crypto.oracleFor, hd] using this
+
+theorem accepted_data_verified (c : Crypto) (p bs : Bytes) (sd : SignedData)
+    (h : classify (c.oracleFor bs) p bs = .dataAccepted sd) :
+    c.verify sd.signer.pubKey sd.data.encode sd.signature = true := by
+  obtain ⟨hs, _, _, hv⟩ := (classifyData_accepted_iff _ p bs sd).1 (admit_data_via_classify _ p bs sd h)
+  have hd := SignedData.decode_true_of_decode _ bs sd hs
+  have := ((validSignedData_iff _ p sd).1 hv).2.2.2
+  simpa [Crypto.oracleFor, hd] using this
+
+/-- the full statement with the verification named: an accepted header carries the proposer's key `R` and
+`verify (carried key) (encoding of the header) (carried signature)` returned true — or a collision is in hand -/
+theorem C03_header_full_verified (c : Crypto) (R bs : Bytes) (sh : SignedHeader)
+    (h : classify (c.oracleFor bs) (keyAddress R) bs = .hdrAccepted sh) :
+    (ed25519Raw sh.signer.pubKey = some R ∧ c.verify sh.signer.pubKey sh.header.encode sh.signature = true) ∨
+    AddrCollision (c.oracleFor bs) R sh.signer.pubKey := by
+  rcases header_by_proposer_or_collision _ R bs sh h with h1 | h1
+  · exact Or.inl ⟨h1.1, accepted_header_verified c _ bs sh h⟩
+  · exact Or.inr h1
+
 /-! ### witnesses: genuine items are accepted (non-vacuity); the old forgeries are now rejected -/
 
 /-- the genesis proposer's raw Ed25519 key, its marshalled form (what `crypto.MarshalPublicKey` writes), and a
@@ -223,6 +266,13 @@ example (hnc : AddrNoCollision proposerRaw) : SignedByProposer forgeO proposerRa
 the proposer's key -/
 example : ed25519Raw ([8, 0x81, 0x80, 0x80, 0x80, 0x10, 18, 32] ++ proposerRaw ++ [72, 7]) = some proposerRaw := by
   decide +kernel
+
+/-- a toy crypto for the non-vacuity example: every key parses, the only valid signature is `[5, 5]` under the
+proposer's key -/
+def toyCrypto : Crypto :=
+  { keyOk := fun _ => true, verify := fun k _ s => k == proposerKey && s == [5, 5], keyAddr := fun _ => [] }
+example : classify (toyCrypto.oracleFor genuineHeader.encode) proposer genuineHeader.encode = .hdrAccepted genuineHeader ∧
+    classify (toyCrypto.oracleFor forgedHeader.encode) proposer forgedHeader.encode = .ignored := by decide +kernel
 
 /-- kernel-evaluated: **the old forged header is now rejected** by the DA path (not a header; not data either) -/
 theorem forged_header_rejected : classify forgeO proposer forgedHeader.encode = .ignored := by decide +kernel
@@ -320,9 +370,11 @@ def lightStore : SignedHeader → List (Bytes × Oracle) → List (SignedHeader 
                 else lightStore head rest acc
     | _ => lightStore head rest acc
 
-/-- **The store of a header-only node holds only headers signed by the genesis proposer**, whatever arrives over
-P2P in whatever order (or a collision is in hand); the head keeps naming the proposer and heights only grow. -/
-theorem light_store_only_proposer_headers (R : Bytes) :
+/-- the invariant of the store once it has a head that names the proposer (the inductive step; the initial
+condition is established by `p2pBootAdmit`, see `light_store_only_proposer_headers` below): whatever arrives over
+P2P in whatever order, only headers signed by the genesis proposer are appended (or a collision is in hand); the
+head keeps naming the proposer and heights only grow. -/
+theorem light_store_step_invariant (R : Bytes) :
     ∀ (msgs : List (Bytes × Oracle)) (head : SignedHeader) (acc : List (SignedHeader × Oracle)),
       head.header.proposerAddress = keyAddress R →
       (∀ e ∈ acc, SignedByProposer e.2 R e.1 ∨ AddrCollision e.2 R e.1.signer.pubKey) →
@@ -407,6 +459,154 @@ example (hnc : AddrNoCollision proposerRaw) : ∃ sh, headerStage forgeO genuine
 example : ((lightStore genuineHeader
       [(unsignedNext.encode, nothingO), ([0xff], nothingO), (genuineNext.encode, forgeO), (unsignedNext.encode, nothingO)] []).2.map
         (fun e => e.1.header.height)) = [2] := by decide +kernel
+
+/-! ### the first header: how the store gets its head (the REAL initial condition)
+
+A node without a trusted hash asks its peers for the header at the initial height (`SyncService.setFirstAndStart`);
+the exchange session applies `Validate()`, and `initStoreAndStartSyncer` — since /repo 5bb4988 — requires the
+genesis proposer address before `store.Init`.  Before that commit the self-consistent header of ANY proposer was
+taken and `Verify` then followed that foreign chain (`p2pBootAdmitOld`, witness below).  With a configured trusted
+hash the header is fetched by hash and goes through the same function. -/
+
+theorem p2pboot_accepted_iff (o : Oracle) (p bs : Bytes) :
+    p2pBootAdmit o p bs = .accepted ↔ ∃ sh, headerStage o bs = .ok sh ∧ p2pAdmit o p sh = true := by
+  unfold p2pBootAdmit libValidate p2pAdmit
+  cases hs : headerStage o bs with
+  | wireErr => simp
+  | fromProtoErr => simp
+  | ok sh =>
+    cases hv : validateBasicWire o sh <;> by_cases hp : sh.header.proposerAddress = p <;> simp [hv, hp]
+
+theorem p2pboot_by_proposer_or_collision (o : Oracle) (R bs : Bytes)
+    (h : p2pBootAdmit o (keyAddress R) bs = .accepted) :
+    ∃ sh, headerStage o bs = .ok sh ∧ sh.header.proposerAddress = keyAddress R ∧
+      (SignedByProposer o R sh ∨ AddrCollision o R sh.signer.pubKey) := by
+  obtain ⟨sh, hs, ha⟩ := (p2pboot_accepted_iff o _ bs).1 h
+  exact ⟨sh, hs, (admit_p2p_selfconsistent_partial o _ sh ha).1, p2p_by_proposer_or_collision o R sh ha⟩
+
+/-- **the first header of the P2P header store is signed by the genesis proposer** -/
+theorem C03_p2pboot_full (R : Bytes) (hnc : AddrNoCollision R) (o : Oracle) (bs : Bytes)
+    (h : p2pBootAdmit o (keyAddress R) bs = .accepted) :
+    ∃ sh, headerStage o bs = .ok sh ∧ sh.header.proposerAddress = keyAddress R ∧
+      (OtherKeyTypeNoCollision o R sh.signer.pubKey → SignedByProposer o R sh) := by
+  obtain ⟨sh, hs, hpa, hor⟩ := p2pboot_by_proposer_or_collision o R bs h
+  exact ⟨sh, hs, hpa, fun hother => hor.resolve_right (no_collision_of_hyps hnc hother)⟩
+
+/-- a header-only node from its start: the answer of a peer for the initial height goes through `p2pBootAdmit`
+(if rejected the store stays empty and the service does not start); then every received message goes through
+`lightStore` -/
+def lightNode (proposer : Bytes) (first : Bytes × Oracle) (msgs : List (Bytes × Oracle)) : List (SignedHeader × Oracle) :=
+  match headerStage first.2 first.1 with
+  | .ok sh =>
+    if p2pBootAdmit first.2 proposer first.1 = .accepted then (lightStore sh msgs [(sh, first.2)]).2 else []
+  | _ => []
+
+/-- **The store of a header-only node holds only headers signed by the genesis proposer** — from the node's real
+initial condition (no assumption on a head: the first header is whatever a peer sends), for whatever arrives over
+P2P afterwards, in whatever order (or a SHA-256 collision is in hand). -/
+theorem light_store_only_proposer_headers (R : Bytes) (first : Bytes × Oracle) (msgs : List (Bytes × Oracle)) :
+    ∀ e ∈ lightNode (keyAddress R) first msgs, SignedByProposer e.2 R e.1 ∨ AddrCollision e.2 R e.1.signer.pubKey := by
+  unfold lightNode
+  cases hs : headerStage first.2 first.1 with
+  | wireErr => intro e he; simp at he
+  | fromProtoErr => intro e he; simp at he
+  | ok sh =>
+    simp only
+    split
+    · rename_i hacc
+      obtain ⟨sh', hs', hpa, hor⟩ := p2pboot_by_proposer_or_collision first.2 R first.1 hacc
+      have : sh' = sh := by rw [hs] at hs'; injection hs' with e; exact e.symm
+      subst this
+      exact (light_store_step_invariant R msgs sh' [(sh', first.2)] hpa (by
+        intro e he
+        have : e = (sh', first.2) := by simpa using he
+        subst this; exact hor)).2.2
+    · intro e he; simp at he
+
+/-- the header of a foreign chain: self-consistent under the third party's own key and address -/
+def foreignChainHeader : SignedHeader :=
+  { header := { height := 1, time := 5, proposerAddress := keyAddress foreignRaw, chainId := "c" }, signature := [5, 5],
+    signer := { address := keyAddress foreignRaw, pubKey := foreignKey } }
+
+/-- kernel-evaluated: **before /repo 5bb4988 a peer could seed the store with a foreign chain**; now the header is
+rejected at the genesis check, the genuine first header is stored -/
+theorem old_p2pboot_accepted_foreign_chain :
+    p2pBootAdmitOld forgeO foreignChainHeader.encode = .accepted ∧
+    p2pBootAdmit forgeO proposer foreignChainHeader.encode = .rejGenesis ∧
+    p2pBootAdmit forgeO proposer genuineHeader.encode = .accepted ∧
+    p2pBootAdmit nothingO proposer unsignedNext.encode = .rejValidate := by decide +kernel
+example : (lightNode proposer (foreignChainHeader.encode, forgeO) [(genuineNext.encode, forgeO)]) = [] := by
+  decide +kernel
+example : ((lightNode proposer (genuineHeader.encode, forgeO)
+      [(unsignedNext.encode, nothingO), (foreignChainHeader.encode, forgeO), (genuineNext.encode, forgeO)]).map
+        (fun e => e.1.header.height)) = [1, 2] := by decide +kernel
+
+/-! ### P2P data items: the library entry must not bring the node down
+
+`types.Data` is the "header" type of the data sync service. It carries no signature: that only the proposer's data
+is APPLIED is the business of the sync loop (data must match the `DataHash` of a proposer-signed header; not part
+of this file).  What belongs here is the library entry: before /repo 8e620ca `Data.Validate()` accepted everything
+and the accessors go-header reads next (`Height`, `ChainID`, `Time`) dereferenced a missing metadata — any peer
+could crash the node with a data message without metadata (or an empty message). -/
+
+theorem old_p2plibdat_panic_now_rejected (tr : Option Data) (bs : Bytes)
+    (h : p2pLibDataAdmitOld tr bs = .panics) : p2pLibDataAdmit tr bs = .rejValidate := by
+  unfold p2pLibDataAdmitOld at h
+  unfold p2pLibDataAdmit libValidateData
+  cases hd : Data.decode bs with
+  | none => rw [hd] at h; simp at h
+  | some d =>
+    rw [hd] at h
+    simp only at h ⊢
+    cases hm : d.metadata with
+    | none => simp
+    | some m =>
+      simp only [hm, Option.isNone_some, Bool.false_eq_true, ↓reduceIte] at h
+      cases tr with
+      | none => simp at h
+      | some t => simp only at h; split at h <;> simp at h
+
+theorem p2plibdat_agrees_elsewhere (tr : Option Data) (bs : Bytes) (v : LibVerdict)
+    (h : p2pLibDataAdmitOld tr bs = v) (hv : v ≠ .panics) : p2pLibDataAdmit tr bs = v := by
+  unfold p2pLibDataAdmitOld at h
+  unfold p2pLibDataAdmit libValidateData
+  cases hd : Data.decode bs with
+  | none => rw [hd] at h; simpa using h
+  | some d =>
+    rw [hd] at h
+    simp only at h ⊢
+    cases hm : d.metadata with
+    | none => simp [hm] at h; exact absurd h.symm hv
+    | some m => simpa [hm] using h
+
+/-- an accepted data item has its metadata (what `DataStoreRetrieveLoop` reads from the store) and the entry never
+panics -/
+theorem p2plibdat_accepted_has_metadata (tr : Option Data) (bs : Bytes) :
+    p2pLibDataAdmit tr bs ≠ .panics ∧
+    (p2pLibDataAdmit tr bs = .accepted → ∃ d, Data.decode bs = some d ∧ d.metadata.isSome = true) := by
+  unfold p2pLibDataAdmit libValidateData
+  cases hd : Data.decode bs with
+  | none => simp
+  | some d =>
+    simp only
+    cases hm : d.metadata.isSome with
+    | false => simp
+    | true =>
+      cases tr with
+      | none => simp [hm]
+      | some t => simp only [Bool.not_true, Bool.false_eq_true, ↓reduceIte]; split <;> simp [hm]
+
+def trustedData : Data := { metadata := some { chainId := "c", height := 1, time := 5 }, txs := [[1]] }
+/-- kernel-evaluated: the old entry panicked on a data message that holds one transaction and nothing else, and on
+the empty message; both are rejected now; a well-formed successor is accepted -/
+theorem old_p2plibdat_panicked :
+    p2pLibDataAdmitOld (some trustedData) [0x12, 0x01, 0x78] = .panics ∧
+    p2pLibDataAdmitOld none [] = .panics ∧
+    p2pLibDataAdmit (some trustedData) [0x12, 0x01, 0x78] = .rejValidate ∧
+    p2pLibDataAdmit none [] = .rejValidate ∧
+    p2pLibDataAdmit (some trustedData)
+      ({ metadata := some { chainId := "c", height := 2, time := 6, lastDataHash := trustedData.hash }, txs := [[2]] } : Data).encode
+      = .accepted := by decide +kernel
 
 /-! ## rejections that hold without any hypothesis -/
 
@@ -590,7 +790,7 @@ theorem accepted_blob_by_proposer_or_collision (o : Oracle) (R b : Bytes)
   | ignored => rw [hc] at h; simp [accepting] at h
 
 /-- **Every blob not signed by the proposer changes nothing**, wherever it sits among the blobs of a DA height —
-forgeries under the proposer's address included: the node (marks, caches, cursor, crash flag) and the events
+forgeries under the proposer's address included: the node (marks, caches, cursor) and the events
 handed to sync are those of the list without it. -/
 theorem blob_not_by_proposer_changes_nothing (R : Bytes) (n : RNode) (da : Nat) (bs₁ bs₂ : List (Bytes × Oracle))
     (b : Bytes) (o : Oracle) (evs : List Event) (hnp : ¬ BlobByProposer o R b) (hnc : ¬ BlobCollides o R b) :
@@ -622,8 +822,7 @@ theorem unverifiable_blob_changes_nothing (p : Bytes) (n : RNode) (da : Nat) (bs
   unaccepted_blob_changes_nothing p n da bs₁ bs₂ b o evs (unverifiable_blob_not_accepting o p b h1 h2)
 
 /-- **Junk cannot halt the scan**: whether a DA height is passed, and after how many attempts, depends on the
-fetch outcomes and on the NUMBER of blobs only — not on their bytes, the oracle answers, or the node. (Together
-with `Spec.C09.no_blob_crashes_the_scan` and the totality of the classifier.) -/
+fetch outcomes and on the NUMBER of blobs only — not on their bytes, the oracle answers, or the node. -/
 theorem blob_contents_cannot_stall_the_scan (p p' : Bytes) (n n' : RNode) (blobs blobs' : List (Bytes × Oracle))
     (hl : blobs.length = blobs'.length) (fuel : Nat) (outs : List Fetch) (used : Nat) :
     (processNext p n blobs fuel outs used).2.2 = (processNext p' n' blobs' fuel outs used).2.2 :=
